@@ -21,6 +21,10 @@ func c13Coll() (*Collection, bsonkit.List) {
 	for i := 0; i < n; i++ {
 		id := "d" + string(rune('0'+i))
 		d := bson.D{{Key: "_id", Value: int32(i)}}
+		if vf.Param("symid", 0) == 1 {
+			// user-supplied ids in arbitrary insertion order
+			d[0].Value = vf.Int32(id + ".id")
+		}
 		if vf.Bool(id + ".hasA") {
 			d = append(d, bson.E{Key: "a", Value: vf.Value(id+".a", "", 2, c13Tags(), 1)})
 		}
@@ -201,12 +205,13 @@ func H_C13_write() {
 // Distinct returns each value occurring at the path (array elements individually) once, ascending
 func H_C13_distinct() {
 	_, docs := c13Coll()
-	res := Distinct(docs, "a")
+	dpath := vf.String("dpath", "a,_id")
+	res := Distinct(docs, dpath)
 	vf.Observe("n", int64(len(res)))
 	// collect the occurring values
 	var occ bson.A
 	for _, d := range docs {
-		v := bsonkit.Get(d, "a")
+		v := bsonkit.Get(d, dpath)
 		if v == bsonkit.Missing {
 			continue
 		}
